@@ -3,7 +3,7 @@
    (c_fun) and of the C++ operators, a method whose row matches its documented
    row returns what the documented call returns. *)
 From Coq Require Import String List Bool Arith.
-From GD Require Import C20.Wrapper.
+From GD Require Import C20.Wrapper C20.Readme.
 Import ListNotations.
 Local Open Scope string_scope.
 
@@ -122,4 +122,42 @@ Proof.
   rewrite forallb_forall in H. specialize (H c Hc). unfold call_in_api in H.
   destruct (find_proto ps (cfun c)) as [p|]; [|discriminate].
   exists p. split; [reflexivity|]. apply Nat.eqb_eq. exact H.
+Qed.
+
+(* a call accepted by the README check is the documented function on the documented arguments *)
+Lemma call_documented_sound al ps cls rps cfs c : call_documented al ps cls rps cfs c = true ->
+  (exists f, In f cfs /\ cfun c = resolve_alias al f) /\
+  exists p, find_proto ps (cfun c) = Some p /\ expected_args cls rps (pparams p) = Some (cargs c).
+Proof.
+  unfold call_documented. intro H. apply andb_prop in H. destruct H as [H1 H2]. split.
+  - apply existsb_exists in H1. destruct H1 as (f & Hf & E). exists f. split; [exact Hf|].
+    apply String.eqb_eq in E. symmetry. exact E.
+  - destruct (find_proto ps (cfun c)) as [p|]; [|discriminate]. exists p. split; [reflexivity|].
+    destruct (expected_args cls rps (pparams p)) as [l|]; [|discriminate].
+    apply (list_eqb_sound expr_eqb expr_eqb_sound) in H2. subst. reflexivity.
+Qed.
+
+Lemma documented_rows_spec sigs al ps t r :
+  In r t -> (rcls r = "Dirfile" \/ rcls r = "Fragment") ->
+  ~ In (rcls r, rmeth r) (rows_with sigs al ps t Deviates) ->
+  ~ In (rcls r, rmeth r) (rows_with sigs al ps t NotInReadme) ->
+  fwd_calls (rbody r) <> [] ->
+  exists rps cfs, find_sig sigs (rcls r) (rmeth r) (length (rparams r)) = Some rps /\
+    find_cfun (rcls r) (rmeth r) = Some cfs /\
+    forall c, In c (fwd_calls (rbody r)) -> call_documented al ps (rcls r) rps cfs c = true.
+Proof.
+  intros Hin Hc Hd Hn Hf.
+  assert (Hcls : (String.eqb (rcls r) "Dirfile" || String.eqb (rcls r) "Fragment")%bool = true).
+  { destruct Hc as [E|E]; rewrite E; reflexivity. }
+  assert (V : forall w, is_v (row_verdict sigs al ps r) w = true -> In (rcls r, rmeth r) (rows_with sigs al ps t w)).
+  { intros w Hw. unfold rows_with. apply in_map_iff. exists r. split; [reflexivity|].
+    apply filter_In. split; [exact Hin|]. rewrite Hcls, Hw. reflexivity. }
+  unfold row_verdict in V.
+  destruct (fwd_calls (rbody r)) as [|c0 cs] eqn:Ef; [contradiction|].
+  destruct (find_sig sigs (rcls r) (rmeth r) (length (rparams r))) as [rps|];
+    [|exfalso; apply Hn; apply V; reflexivity].
+  destruct (find_cfun (rcls r) (rmeth r)) as [cfs|]; [|exfalso; apply Hn; apply V; reflexivity].
+  destruct (forallb (call_documented al ps (rcls r) rps cfs) (c0 :: cs)) eqn:Ea;
+    [|exfalso; apply Hd; apply V; reflexivity].
+  exists rps, cfs. repeat split. intros c Hc'. rewrite forallb_forall in Ea. apply Ea. exact Hc'.
 Qed.
